@@ -244,7 +244,7 @@ def r9_2(prog, rep, dm):
 def r9_3(prog, rep):
     from . import C17
 
-    sub = type(rep)(rep.prop)
+    sub = rep.sub()
     C17.r17_6(prog, sub)
     for it in sub.items:
         it = dict(it)
